@@ -30,6 +30,10 @@ LEVEL = "exploration"
 # ------------------------------------------------------------------------------------------
 # one build + run
 
+# wall-clock cap of one compiler process (a typical one takes 15 ms). C26 lowers it while it
+# only collects scheduler traces.
+COMPILE_TIMEOUT = 60
+
 ERR_RE = re.compile(r"^error: (.*)$", re.M)
 NUM_RE = re.compile(r"\d+")
 
@@ -82,7 +86,7 @@ def build_and_run(bx, files, entry="main.capy", want_trace=True, world=None, lin
     args = ["build", entry, "--mod-dir", bx.mods]
     if not link:
         args.append("--no-exec")
-    res = bx.compile(args, w, trace=want_trace)
+    res = bx.compile(args, w, trace=want_trace, timeout=COMPILE_TIMEOUT)
     out = boxmod.mask_scratch(res.stdout, bx).decode(errors="replace")
     errors = ERR_RE.findall(out)
     o = {
